@@ -94,6 +94,12 @@ CHECKS = {
                      '4xx/5xx for rejected input and Connection: close iff closed, or a plain close; no request event for rejected '
                      'input, nothing escapes tick(), no per-connection state after disconnect, the loop still serves afterwards',
                 note='trusted: z3/pathex, the web rig, http.client as the independent response parser; inputs limited to the catalogue in harness/c14.py'),
+    'C15': dict(engine='pathex', technique=TECH, ref='DESIGN.md 4/C15',
+                text='bounded symbolic execution of the real response path (Response.prepare, Body, HTTP._on_response/_on_stream) over '
+                     'the product body kind x size x status x HTTP version x Connection header x method x streaming, and pairs of '
+                     'requests on one connection: the bytes written are decoded by http.client (independent implementation) and '
+                     'status, body, Content-Length, no-body statuses, close-iff-announced and per-connection state reset are checked',
+                note='trusted: z3/pathex, the web rig, http.client as reference; body sizes limited to {0,1,5,4097}'),
 }
 
 NOT_YET = {
